@@ -6,59 +6,59 @@ namespace HmsProofs.Sim
 open Hms.Core Hms.Core.Comp Hms.Core.VM
 
 /-- Inversion of `okGS` on expression statements. -/
-theorem okGS_exprS_inv (il rt : Bool) (sp : Span) (e : Expr) (h : Frag.okGS il rt (.exprS sp e) = true) :
+theorem okGS_exprS_inv (fr il rt : Bool) (sp : Span) (e : Expr) (h : Frag.okFS fr il rt (.exprS sp e) = true) :
     (∃ asp op isp ity name isFn r,
       e = .assign asp op (.ident isp ity name false isFn false) r ∧ Frag.okGE r = true ∧
       (∀ o, op = some o → Frag.isLogical o = false)) ∨
     (∃ isp ty c t eb, e = .ifE isp ty c t (some eb) ∧ ty.isNull = true ∧ Frag.okGE c = true ∧
-      Frag.okGBS il rt t = true ∧ Frag.okGBS il rt eb = true) ∨
-    (∃ isp ty c t, e = .ifE isp ty c t none ∧ ty.isNull = true ∧ Frag.okGE c = true ∧ Frag.okGBS il rt t = true) ∨
+      Frag.okFBS fr il rt t = true ∧ Frag.okFBS fr il rt eb = true) ∨
+    (∃ isp ty c t, e = .ifE isp ty c t none ∧ ty.isNull = true ∧ Frag.okGE c = true ∧ Frag.okFBS fr il rt t = true) ∨
     (∃ csp cty isp ity name g f si args sw, e = .call csp cty (.ident isp ity name g f si) args sw ∧
       ((name = "println" ∧ cty.isNull = true ∧ sw = false ∧ Frag.okGArgs args = true ∧
           Frag.oneNonAtom args = true ∧ args.length < 2 ^ 64) ∨
        (name ≠ "println" ∧ name ≠ "throw" ∧ cty.isNull = false ∧
           Frag.okGE (.call csp cty (.ident isp ity name g f si) args sw) = true) ∨
        (name = "throw" ∧ sw = false ∧ ∃ a, args = [a] ∧ Frag.atomE a.2 = true))) ∨
-    (∃ tsp ty t ci c, e = .tryE tsp ty t ci c ∧ ty.isNull = true ∧ Frag.okGBS false false t = true ∧
-      Frag.okGBS il rt c = true) ∨
+    (∃ tsp ty t ci c, e = .tryE tsp ty t ci c ∧ ty.isNull = true ∧ Frag.okFBS fr false false t = true ∧
+      Frag.okFBS fr il rt c = true) ∨
     (∃ msp ty c arms db, e = .matchE msp ty c arms (some (.blockE db)) ∧ ty.isNull = true ∧ Frag.okGE c = true ∧
-      Frag.okGArmsS il rt arms = true ∧ Frag.okGBS il rt db = true) := by
-  cases e <;> try (simp [Frag.okGS] at h; done)
+      Frag.okFArmsS fr il rt arms = true ∧ Frag.okFBS fr il rt db = true) := by
+  cases e <;> try (simp [Frag.okFS] at h; done)
   case matchE msp ty c arms dflt =>
     right; right; right; right; right
     cases dflt with
-    | none => simp [Frag.okGS] at h
+    | none => simp [Frag.okFS] at h
     | some d =>
-      cases d <;> try (simp [Frag.okGS] at h; done)
+      cases d <;> try (simp [Frag.okFS] at h; done)
       rename_i db
-      simp only [Frag.okGS, Bool.and_eq_true] at h
+      simp only [Frag.okFS, Bool.and_eq_true] at h
       exact ⟨msp, ty, c, arms, db, rfl, h.1.1.1, h.1.1.2, h.1.2, h.2⟩
   case assign asp op l r =>
     left
-    cases op <;> cases l <;> try (simp [Frag.okGS] at h; done)
+    cases op <;> cases l <;> try (simp [Frag.okFS] at h; done)
     · rename_i isp ity name isGlobal isFn isSing
-      cases isGlobal <;> cases isSing <;> simp [Frag.okGS] at h
+      cases isGlobal <;> cases isSing <;> simp [Frag.okFS] at h
       exact ⟨asp, none, isp, ity, name, isFn, r, rfl, h, by simp⟩
     · rename_i o isp ity name isGlobal isFn isSing
-      cases isGlobal <;> cases isSing <;> simp [Frag.okGS] at h
+      cases isGlobal <;> cases isSing <;> simp [Frag.okFS] at h
       exact ⟨asp, some o, isp, ity, name, isFn, r, rfl, h.2, by simp [h.1]⟩
   case ifE isp ty c t el =>
     right
     cases el with
     | some eb =>
       left
-      simp only [Frag.okGS, Bool.and_eq_true] at h
+      simp only [Frag.okFS, Bool.and_eq_true] at h
       exact ⟨isp, ty, c, t, eb, rfl, h.1.1.1, h.1.1.2, h.1.2, h.2⟩
     | none =>
       right; left
-      simp only [Frag.okGS, Bool.and_eq_true] at h
+      simp only [Frag.okFS, Bool.and_eq_true] at h
       exact ⟨isp, ty, c, t, rfl, h.1.1, h.1.2, h.2⟩
   case call csp cty base args sw =>
     right; right; right; left
-    cases base <;> try (simp [Frag.okGS] at h; done)
+    cases base <;> try (simp [Frag.okFS] at h; done)
     rename_i isp ity name g f si
     refine ⟨csp, cty, isp, ity, name, g, f, si, args, sw, rfl, ?_⟩
-    simp only [Frag.okGS] at h
+    simp only [Frag.okFS] at h
     by_cases ht : name = "throw"
     · right; right
       simp only [ht, beq_self_eq_true, if_true, Bool.and_eq_true, Bool.not_eq_eq_eq_not, Bool.not_true,
@@ -83,7 +83,7 @@ theorem okGS_exprS_inv (il rt : Bool) (sp : Span) (e : Expr) (h : Frag.okGS il r
         exact ⟨hn, ht, h.1, h.2⟩
   case tryE tsp ty t ci c =>
     right; right; right; right; left
-    simp only [Frag.okGS, Bool.and_eq_true] at h
+    simp only [Frag.okFS, Bool.and_eq_true] at h
     exact ⟨tsp, ty, t, ci, c, rfl, h.1.1, h.1.2, h.2⟩
 
 theorem evalList_length (cfg : Cfg) : ∀ (fuel : Nat) (es : List Expr) (st st' : St) (vs : List Val),
@@ -114,9 +114,17 @@ theorem evalList_length (cfg : Cfg) : ∀ (fuel : Nat) (es : List Expr) (st st' 
 theorem GRel.assign {G : GCtx} {A : Act} (hA : A.OK G) {scopes vm ss mem}
     (h : GRel G A scopes vm ss mem) (x : String) (hx : x ∈ A.T) (m : String) (hρ : ρS scopes x = some m) (v : Val) :
     ∃ ss', assignScopes x v ss = some ss' ∧
-      GRel G A scopes vm ss' (memSetL mem (A.mp - (A.σ m : Int)) v) := by
+      GRel G A scopes vm ss' (mem.set (A.mp - (A.σ m : Int)) v) := by
   obtain ⟨ss', h1, h2⟩ := h.rel.assign hA.good x hx m hρ v
-  exact ⟨ss', h1, ⟨h2, h.key⟩⟩
+  refine ⟨ss', h1, ⟨h2, h.key, ?_, h.ghostC⟩⟩
+  obtain ⟨sc, hsc, hl⟩ : ∃ sc ∈ scopes, sc.lookup x = some m := by
+    unfold ρS at hρ
+    obtain ⟨sc, hsc, hl⟩ := List.exists_of_findSome?_eq_some hρ
+    exact ⟨sc, hsc, hl⟩
+  have hp := lookup_mem sc x m hl
+  obtain ⟨c, hc, _⟩ := h.rel.named sc hsc (x, m) hp hx
+  have hNm : A.N m := h.rel.inN m ((mem_liveNames A.T scopes m).mpr ⟨sc, hsc, (x, m), hp, hx, rfl⟩)
+  exact h.ghost.set hA m hNm x c hc hx v
 
 theorem Act.OK.cell {G : GCtx} {A : Act} (hA : A.OK G) (m : String) (hm : A.N m) :
     0 ≤ A.mp - (A.σ m : Int) ∧ A.mp - (A.σ m : Int) < (G.lim.memory : Int) ∧
@@ -124,7 +132,7 @@ theorem Act.OK.cell {G : GCtx} {A : Act} (hA : A.OK G) (m : String) (hm : A.N m)
   have := hA.slot m hm; have := hA.lo; have := hA.hi
   omega
 
-theorem okGArmsS_lits (il rt : Bool) : ∀ (arms : List (List Expr × Expr)), Frag.okGArmsS il rt arms = true →
+theorem okGArmsS_lits (fr il rt : Bool) : ∀ (arms : List (List Expr × Expr)), Frag.okFArmsS fr il rt arms = true →
     ∀ a ∈ arms, ∀ l ∈ a.1, Frag.litE l = true := by
   intro arms
   induction arms with
@@ -132,8 +140,8 @@ theorem okGArmsS_lits (il rt : Bool) : ∀ (arms : List (List Expr × Expr)), Fr
   | cons a0 rest iha =>
     intro hok a ha
     obtain ⟨lits0, act0⟩ := a0
-    cases act0 <;> try (simp [Frag.okGArmsS] at hok; done)
-    simp only [Frag.okGArmsS, Bool.and_eq_true, List.all_eq_true] at hok
+    cases act0 <;> try (simp [Frag.okFArmsS] at hok; done)
+    simp only [Frag.okFArmsS, Bool.and_eq_true, List.all_eq_true] at hok
     rcases List.mem_cons.mp ha with rfl | ha
     · exact hok.1.1
     · exact iha hok.2 a ha
@@ -156,10 +164,10 @@ theorem cgArmsS_scopes (mod fn : String) (φ : String → Option String) (loops 
 theorem cgArmsS_at (A : Act) (mod fn : String) (φ : String → Option String) (loops : List (String × String))
     (sp : Span) (after : String) (il rt : Bool) :
     ∀ (arms : List (List Expr × Expr)) (nms : List String) (env : CEnv) (ip : Nat), arms.length = nms.length →
-    Frag.okGArmsS il rt arms = true → Frag.wsGArmsS mod fn φ loops arms env = true →
+    Frag.okFArmsS fr il rt arms = true → Frag.wsGArmsS mod fn φ loops arms env = true →
     Placed A.lab A.σ A.c ip (cgArmsS mod fn φ loops sp after arms nms env).1 →
     ∀ (i : Nat) (a : List Expr × Expr) (nm : String), arms[i]? = some a → nms[i]? = some nm →
-      ∃ (b : Block) (envi : CEnv), a.2 = .blockE b ∧ Frag.okGBS il rt b = true ∧
+      ∃ (b : Block) (envi : CEnv), a.2 = .blockE b ∧ Frag.okFBS fr il rt b = true ∧
         (∀ x ∈ Frag.identsGBS b, x ∈ Frag.identsGArmsS arms) ∧
         envi.scopes = env.scopes ∧ (∀ k, cnt env.vm k ≤ cnt envi.vm k) ∧
         (∀ k, cnt (cgBS mod fn φ loops b envi).2.vm k ≤ cnt (cgArmsS mod fn φ loops sp after arms nms env).2.vm k) ∧
@@ -173,12 +181,12 @@ theorem cgArmsS_at (A : Act) (mod fn : String) (φ : String → Option String) (
   | cons a0 rest ih =>
     intro nms env ip hlen hok hws hpl i a nm hi hn
     obtain ⟨lits0, act0⟩ := a0
-    cases act0 <;> try (simp [Frag.okGArmsS] at hok; done)
+    cases act0 <;> try (simp [Frag.okFArmsS] at hok; done)
     rename_i b0
     cases nms with
     | nil => simp at hlen
     | cons n0 nms' =>
-      simp only [Frag.okGArmsS, Bool.and_eq_true] at hok
+      simp only [Frag.okFArmsS, Bool.and_eq_true] at hok
       simp only [Frag.wsGArmsS, Bool.and_eq_true] at hws
       simp only [cgArmsS] at hpl ⊢
       obtain ⟨h123, hplR⟩ := hpl.append
@@ -214,15 +222,22 @@ theorem cgArmsS_at (A : Act) (mod fn : String) (φ : String → Option String) (
 
 /-- `let`, assignments, `return`, `break`, `continue`, call statements, `println`, `if`;
 loops through `PGL`. -/
-theorem pgs_step (G : GCtx) (hG : G.OK) (n : Nat) (hPE : ∀ m, m ≤ n → PE G m) (hPArgsLow : ∀ m, m + 2 = n → PArgs G m)
+theorem pgs_step (G : GCtx) (hG : G.OK') (n : Nat) (hPE : ∀ m, m ≤ n → PE G m) (hPArgsLow : ∀ m, m + 2 = n → PArgs G m)
     (hPL : PGL G n) (hPBlow : ∀ m, m + 1 ≤ n → PGBS G m)
-    (hTry : ∀ m, m + 1 = n → ∀ hs, PGBS (G.withH hs) m) (hPSsLow : ∀ m, m + 2 = n → PGSs G m) : PGS G (n + 1) := by
+    (hTry : ∀ m, m + 1 = n → ∀ hs, PGBS (G.withH hs) m) (hPSsLow : ∀ m, m + 2 = n → PGSs G m)
+    (hPF : PGF G (n + 1)) : PGS G (n + 1) := by
   intro A hA loops lscopes d st env spec ip stk mem hs hT hws hN hpl hd hls hrel hsp
   have hPEn := hPE n (Nat.le_refl n)
   cases st
-  case typedef | trigger | forS => simp [Frag.okGS] at hs
+  case typedef | trigger => simp [Frag.okFS] at hs
+  case forS sp name vty iter body =>
+    obtain ⟨bsp, bty, stmts, boe⟩ := body
+    cases iter <;> try (simp [Frag.okFS] at hs; done)
+    cases boe <;> try (simp [Frag.okFS] at hs; done)
+    rename_i rsp a b incl
+    exact hPF A hA loops lscopes d sp name vty rsp a b incl bsp bty stmts env spec ip stk mem hs hT hws hN hpl hd hls hrel hsp
   case letS sp name vty needsCast oty e =>
-    simp only [Frag.okGS, Bool.and_eq_true, Bool.not_eq_eq_eq_not, Bool.not_true] at hs
+    simp only [Frag.okFS, Bool.and_eq_true, Bool.not_eq_eq_eq_not, Bool.not_true] at hs
     obtain ⟨hnc, he⟩ := hs
     subst hnc
     simp only [Frag.wsGS] at hws
@@ -247,14 +262,14 @@ theorem pgs_step (G : GCtx) (hG : G.OK) (n : Nat) (hPE : ∀ m, m ≤ n → PE G
       have hdecl := GRel.declare (env := { env with lm := ce.2 }) hA hrel1 name (hT name (Or.inl rfl)) v hNm
       have hout : (declareSt name v st1).world = st1.world := by
         unfold declareSt; cases st1.scopes <;> rfl
-      have hset : Runs G.code G.lim G.s A.fn A.rest A.mp (ip + nI ce.1) (⟨v, none⟩ :: stk) mem1 st1.world
+      have hset : Runs G.fr G.code G.lim G.s A.fn A.rest A.mp (ip + nI ce.1) (⟨v, none⟩ :: stk) mem1 st1.world
           (ip + nI ce.1 + 1) stk
-          (memSetL mem1 (A.mp - (A.σ (freshVar G.mod { env with lm := ce.2 } name).1 : Int)) v) st1.world :=
-        Runs.of_runsTo (RunsTo.of_exec1 (fun k =>
-          reach_setVar G.code G.lim (baseOf G.s A.fn A.rest A.mp st1.world) _ k stk mem1 ⟨A.fn, 0⟩ A.rest A.c rfl
+          (mem1.set (A.mp - (A.σ (freshVar G.mod { env with lm := ce.2 } name).1 : Int)) v) st1.world :=
+        Runs.of_runsTo (fr := G.fr) (fun it_ => RunsTo.of_exec1 (fun k =>
+          reach_setVar G.code G.lim (baseOf (withIt G.s it_) A.fn A.rest A.mp st1.world) _ k stk mem1 ⟨A.fn, 0⟩ A.rest A.c rfl
             hA.code _ sp v none iset hcell.1 hcell.2.1))
-      refine ⟨?_, memSetL mem1 (A.mp - (A.σ (freshVar G.mod { env with lm := ce.2 } name).1 : Int)) v, ?_,
-        (hml.mono (by omega)).trans (MemLe.set _ _ _ _ hcell.2.2), ?_⟩
+      refine ⟨?_, mem1.set (A.mp - (A.σ (freshVar G.mod { env with lm := ce.2 } name).1 : Int)) v, ?_,
+        (hml.mono (by omega)).trans (MemLe.set _ _ _ _ _ hcell.2.2), ?_⟩
       · have h1 := declareSt_frame name v st1
         have h2 : (declareSt name v st1) =
             { st1 with scopes := (declareSt name v st1).scopes, out := (declareSt name v st1).out, heap := (declareSt name v st1).heap } := by
@@ -266,9 +281,9 @@ theorem pgs_step (G : GCtx) (hG : G.OK) (n : Nat) (hPE : ∀ m, m ≤ n → PE G
         exact hdecl
   case ret sp oe =>
     cases oe with
-    | none => simp [Frag.okGS] at hs
+    | none => simp [Frag.okFS] at hs
     | some e =>
-      simp only [Frag.okGS, Bool.and_eq_true] at hs
+      simp only [Frag.okFS, Bool.and_eq_true] at hs
       obtain ⟨hrt, hs⟩ := hs
       simp only [Frag.wsGS, Bool.and_eq_true] at hws
       simp only [Frag.identsGS] at hT
@@ -285,11 +300,11 @@ theorem pgs_step (G : GCtx) (hG : G.OK) (n : Nat) (hPE : ∀ m, m ≤ n → PE G
       | error ce' => exact SimGS.of_exprError _ hrel hls h1
       | ok v =>
         obtain ⟨hfr, mem1, hrun, hml⟩ := h1
-        refine ⟨hrt, by rw [hfr], mem1, hrun.trans (Runs.of_runsTo (RunsTo.of_exec1 (fun k =>
-          reach_jump G.code G.lim (baseOf G.s A.fn A.rest A.mp st1.world) _ k _ mem1 ⟨A.fn, 0⟩ A.rest A.c rfl
+        refine ⟨hrt, by rw [hfr], mem1, hrun.trans (Runs.of_runsTo (fr := G.fr) (fun it_ => RunsTo.of_exec1 (fun k =>
+          reach_jump G.code G.lim (baseOf (withIt G.s it_) A.fn A.rest A.mp st1.world) _ k _ mem1 ⟨A.fn, 0⟩ A.rest A.c rfl
             hA.code (A.lab A.cl) sp ijmp))), hml.mono (by omega)⟩
   case brk sp =>
-    simp only [Frag.okGS] at hs
+    simp only [Frag.okFS] at hs
     cases loops with
     | nil => simp at hs
     | cons bc rest =>
@@ -297,12 +312,12 @@ theorem pgs_step (G : GCtx) (hG : G.OK) (n : Nat) (hPE : ∀ m, m ≤ n → PE G
       simp only [cgS] at hpl ⊢
       obtain ⟨ijmp, _⟩ := hpl.instr (i := .jump b) rfl
       rw [evalStmt_brk]
-      refine ⟨rfl, mem, Runs.of_runsTo (RunsTo.of_exec1 (fun k =>
-        reach_jump G.code G.lim (baseOf G.s A.fn A.rest A.mp spec.world) _ k _ mem ⟨A.fn, 0⟩ A.rest A.c rfl
-          hA.code (A.lab b) sp ijmp)), MemLe.refl _ _, ?_⟩
-      rw [hls]; exact hrel.rel.scopes.drop d
+      refine ⟨rfl, mem, Runs.of_runsTo (fr := G.fr) (fun it_ => RunsTo.of_exec1 (fun k =>
+        reach_jump G.code G.lim (baseOf (withIt G.s it_) A.fn A.rest A.mp spec.world) _ k _ mem ⟨A.fn, 0⟩ A.rest A.c rfl
+          hA.code (A.lab b) sp ijmp)), MemLe.refl _ _ _, ?_⟩
+      rw [hls]; exact ⟨hrel.rel.scopes.drop d, hrel.ghost⟩
   case cont sp =>
-    simp only [Frag.okGS] at hs
+    simp only [Frag.okFS] at hs
     cases loops with
     | nil => simp at hs
     | cons bc rest =>
@@ -310,10 +325,10 @@ theorem pgs_step (G : GCtx) (hG : G.OK) (n : Nat) (hPE : ∀ m, m ≤ n → PE G
       simp only [cgS] at hpl ⊢
       obtain ⟨ijmp, _⟩ := hpl.instr (i := .jump c) rfl
       rw [evalStmt_cont]
-      refine ⟨rfl, mem, Runs.of_runsTo (RunsTo.of_exec1 (fun k =>
-        reach_jump G.code G.lim (baseOf G.s A.fn A.rest A.mp spec.world) _ k _ mem ⟨A.fn, 0⟩ A.rest A.c rfl
-          hA.code (A.lab c) sp ijmp)), MemLe.refl _ _, ?_⟩
-      rw [hls]; exact hrel.rel.scopes.drop d
+      refine ⟨rfl, mem, Runs.of_runsTo (fr := G.fr) (fun it_ => RunsTo.of_exec1 (fun k =>
+        reach_jump G.code G.lim (baseOf (withIt G.s it_) A.fn A.rest A.mp spec.world) _ k _ mem ⟨A.fn, 0⟩ A.rest A.c rfl
+          hA.code (A.lab c) sp ijmp)), MemLe.refl _ _ _, ?_⟩
+      rw [hls]; exact ⟨hrel.rel.scopes.drop d, hrel.ghost⟩
   case whileS sp cnd body =>
     rw [evalStmt_while]
     have h := hPL A hA loops lscopes d sp (some cnd) body env spec ip stk mem hs hT hws hN hpl hls hrel hsp
@@ -345,7 +360,7 @@ theorem pgs_step (G : GCtx) (hG : G.OK) (n : Nat) (hPE : ∀ m, m ≤ n → PE G
       rw [hsc]
       exact hq.vm_mono ((cgS_vm_mono G.mod A.src A.φ _).1 loops _ env (Nat.le_refl _))
   case exprS sp e =>
-    rcases okGS_exprS_inv _ _ sp e hs with ⟨asp, op, isp, ity, name, isFn, r, rfl, hr, hlog⟩ |
+    rcases okGS_exprS_inv _ _ _ sp e hs with ⟨asp, op, isp, ity, name, isFn, r, rfl, hr, hlog⟩ |
       ⟨isp, ty, cnd, t, eb, rfl, hty, hcnd, ht, heb⟩ | ⟨isp, ty, cnd, t, rfl, hty, hcnd, ht⟩ |
       ⟨csp, cty, isp, ity, name, g, f, si, args, sw, rfl, hcall⟩ | ⟨tsp, tty, tb, ci, cb, rfl, htty, htb, hcb⟩ |
       ⟨msp, mty, mc, arms, db, rfl, hmty, hmc, hmarms, hmdb⟩
@@ -390,10 +405,10 @@ theorem pgs_step (G : GCtx) (hG : G.OK) (n : Nat) (hPE : ∀ m, m ≤ n → PE G
           have hrel1 : GRel G A env.scopes env.vm st1.scopes mem1 := by rw [hfr]; exact hrel.memLe hml
           obtain ⟨ss', hass, hrel'⟩ := hrel1.assign hA name hxT m hρ v
           simp only [writePlace_var name false v st1 ss' hass]
-          refine ⟨by rw [hfr], _, (hrun.trans (Runs.of_runsTo (RunsTo.of_exec1 (fun k =>
-            reach_setVar G.code G.lim (baseOf G.s A.fn A.rest A.mp st1.world) _ k stk mem1 ⟨A.fn, 0⟩ A.rest A.c rfl
+          refine ⟨by rw [hfr], _, (hrun.trans (Runs.of_runsTo (fr := G.fr) (fun it_ => RunsTo.of_exec1 (fun k =>
+            reach_setVar G.code G.lim (baseOf (withIt G.s it_) A.fn A.rest A.mp st1.world) _ k stk mem1 ⟨A.fn, 0⟩ A.rest A.c rfl
               hA.code _ asp v none iset hm0 hm1)))).cast ?_,
-            (hml.mono (by omega)).trans (MemLe.set _ _ _ _ hcell.2.2), hrel'⟩
+            (hml.mono (by omega)).trans (MemLe.set _ _ _ _ _ hcell.2.2), hrel'⟩
           rw [nI_append, nI_instr _ _ _ rfl]; simp only [nI_nil]; omega
       | some o =>
         have hlog := hlog o rfl
@@ -407,9 +422,9 @@ theorem pgs_step (G : GCtx) (hG : G.OK) (n : Nat) (hPE : ∀ m, m ≤ n → PE G
         have hnG : nI [((Instr.getVar m : SInstr), asp)] = 1 := rfl
         simp only [nI_append, hnG] at hplE hplA iset ⊢
         simp only [← Nat.add_assoc] at hplA iset
-        have hget : Runs G.code G.lim G.s A.fn A.rest A.mp ip stk mem spec.world (ip + 1) (⟨cur, none⟩ :: stk) mem
+        have hget : Runs G.fr G.code G.lim G.s A.fn A.rest A.mp ip stk mem spec.world (ip + 1) (⟨cur, none⟩ :: stk) mem
             spec.world :=
-          Runs.of_runsTo (RunsTo.of_exec1 (fun k => reach_getVar G.code G.lim (baseOf G.s A.fn A.rest A.mp spec.world)
+          Runs.of_runsTo (fr := G.fr) (fun it_ => RunsTo.of_exec1 (fun k => reach_getVar G.code G.lim (baseOf (withIt G.s it_) A.fn A.rest A.mp spec.world)
             ip k stk mem ⟨A.fn, 0⟩ A.rest A.c rfl hA.code (A.σ m) asp cur iget hm0 hm1 hmv))
         have h1 := hPE1 A hA r spec (ip + 1) (⟨cur, none⟩ :: stk) mem env.lm env.scopes env.vm hr hwr
           (fun x hx => hT x (Or.inr hx)) (hcr ▸ hplE) hrel.rel hsp
@@ -421,22 +436,23 @@ theorem pgs_step (G : GCtx) (hG : G.OK) (n : Nat) (hPE : ∀ m, m ≤ n → PE G
         cases r1 with
         | error ce' =>
           exact SimGS.of_exprError _ hrel hls
-            (SimGE.error_after (st0 := spec) (nI cr.1) [⟨cur, none⟩] hget (by cases spec; rfl) (MemLe.refl _ _) h1)
+            (SimGE.error_after (st0 := spec) (nI cr.1) [⟨cur, none⟩] hget (by cases spec; rfl) (MemLe.refl _ _ _) h1)
         | ok b =>
           obtain ⟨hfr, mem1, hrun, hml⟩ := h1
           simp only []
           have hsp1 := hsp.world st1 hfr
-          have ha := exec_arith G.code G.lim (baseOf G.s A.fn A.rest A.mp st1.world) ⟨A.fn, 0⟩ A.rest A.c A.σ A.lab
+          have ha := fun it_ => exec_arith G.code G.lim (baseOf (withIt G.s it_) A.fn A.rest A.mp st1.world) ⟨A.fn, 0⟩
+            A.rest A.c A.σ A.lab
             rfl hA.code o asp cur b none none st1 (ip + 1 + nI cr.1) stk mem1 hlog hplA rfl
           rcases hb : binOp o cur b asp st1 with ⟨rb, st2⟩
           have hst2 : st2 = st1 := by
             have := (binOp_heapOnly o cur b asp).state st1
             rw [hb] at this; exact this
           subst hst2
-          rw [hb] at ha
+          simp only [hb] at ha
           cases rb with
           | error cb =>
-            cases cb <;> first | trivial | exact ha.elim | skip
+            cases cb <;> first | trivial | exact (ha ⟨[], 0⟩).elim | skip
             intro _
             exact (hget.trans hrun).fatal (RunsF.of_runsFatal ha)
           | ok v =>
@@ -445,9 +461,9 @@ theorem pgs_step (G : GCtx) (hG : G.OK) (n : Nat) (hPE : ∀ m, m ≤ n → PE G
             obtain ⟨ss', hass, hrel'⟩ := hrel1.assign hA name hxT m hρ v
             simp only [writePlace_var name false v st2 ss' hass]
             refine ⟨by rw [hfr], _, (((hget.trans hrun).trans (Runs.of_runsTo ha)).trans (Runs.of_runsTo
-              (RunsTo.of_exec1 (fun k => reach_setVar G.code G.lim (baseOf G.s A.fn A.rest A.mp st2.world) _ k stk mem1
+              (fun it_ => RunsTo.of_exec1 (fun k => reach_setVar G.code G.lim (baseOf (withIt G.s it_) A.fn A.rest A.mp st2.world) _ k stk mem1
                 ⟨A.fn, 0⟩ A.rest A.c rfl hA.code _ asp v none iset hm0 hm1)))).cast ?_,
-              (hml.mono (by omega)).trans (MemLe.set _ _ _ _ hcell.2.2), hrel'⟩
+              (hml.mono (by omega)).trans (MemLe.set _ _ _ _ _ hcell.2.2), hrel'⟩
             rw [nI_instr _ _ _ rfl]; simp only [nI_nil]; omega
     · -- `if c { … } else { … }`
       simp only [Frag.wsGS, Bool.and_eq_true] at hws
@@ -504,13 +520,13 @@ theorem pgs_step (G : GCtx) (hG : G.OK) (n : Nat) (hPE : ∀ m, m ≤ n → PE G
         have hrel1 : GRel G A env.scopes env.vm st1.scopes mem1 := by rw [hfr]; exact hrel.memLe hml
         cases v <;> try trivial
         rename_i bv
-        have hjif := Runs.of_runsTo (RunsTo.of_exec1 (fun k =>
-          reach_jumpIfFalse G.code G.lim (baseOf G.s A.fn A.rest A.mp st1.world) _ k stk mem1 ⟨A.fn, 0⟩ A.rest A.c rfl
+        have hjif := Runs.of_runsTo (fr := G.fr) (fun it_ => RunsTo.of_exec1 (fun k =>
+          reach_jumpIfFalse G.code G.lim (baseOf (withIt G.s it_) A.fn A.rest A.mp st1.world) _ k stk mem1 ⟨A.fn, 0⟩ A.rest A.c rfl
             hA.code (A.lab els.1) isp bv none ijif))
         cases bv with
         | true =>
           simp only []
-          have hpre : Runs G.code G.lim G.s A.fn A.rest A.mp ip stk mem spec.world (ip + (nI C.1 + 1)) stk mem1 st1.world :=
+          have hpre : Runs G.fr G.code G.lim G.s A.fn A.rest A.mp ip stk mem spec.world (ip + (nI C.1 + 1)) stk mem1 st1.world :=
             (hrun.trans hjif).cast (by simp only [if_true]; omega)
           have hb := hPB A hA loops lscopes d t { env with lm := els.2 } st1 (ip + (nI C.1 + 1)) stk mem1 ht
             (fun x hx => hT x (Or.inr (Or.inl hx))) hwt
@@ -522,15 +538,15 @@ theorem pgs_step (G : GCtx) (hG : G.OK) (n : Nat) (hPE : ∀ m, m ≤ n → PE G
           | error ce' => exact SimGS.error_after _ hfr' hpre (hml.mono (by omega)) hb
           | ok u =>
             obtain ⟨hfr2, mem2, hrunB, hml2, hrelB⟩ := hb
-            refine ⟨by rw [hfr2, hfr], mem2, ((hpre.trans hrunB).trans (Runs.of_runsTo (RunsTo.of_exec1 (fun k =>
-              reach_jump G.code G.lim (baseOf G.s A.fn A.rest A.mp st2.world) _ k _ mem2 ⟨A.fn, 0⟩ A.rest A.c rfl
+            refine ⟨by rw [hfr2, hfr], mem2, ((hpre.trans hrunB).trans (Runs.of_runsTo (fr := G.fr) (fun it_ => RunsTo.of_exec1 (fun k =>
+              reach_jump G.code G.lim (baseOf (withIt G.s it_) A.fn A.rest A.mp st2.world) _ k _ mem2 ⟨A.fn, 0⟩ A.rest A.c rfl
                 hA.code (A.lab aft.1) isp (by rw [← Nat.add_assoc] at ijmp ⊢; exact ijmp))))).cast (by omega),
               (hml.mono (by omega)).trans hml2, ?_⟩
             rw [hscE, ← hscT]
             exact hrelB.vm_mono hvmE
         | false =>
           simp only []
-          have hpre : Runs G.code G.lim G.s A.fn A.rest A.mp ip stk mem spec.world
+          have hpre : Runs G.fr G.code G.lim G.s A.fn A.rest A.mp ip stk mem spec.world
               (ip + (nI C.1 + 1 + nI Tb.1 + 1)) stk mem1 st1.world :=
             (hrun.trans hjif).cast (by simp only [Bool.false_eq_true, if_false]; omega)
           have hrelT : GRel G A Tb.2.scopes Tb.2.vm st1.scopes mem1 := by
@@ -593,13 +609,13 @@ theorem pgs_step (G : GCtx) (hG : G.OK) (n : Nat) (hPE : ∀ m, m ≤ n → PE G
         have hrel1 : GRel G A env.scopes env.vm st1.scopes mem1 := by rw [hfr]; exact hrel.memLe hml
         cases v <;> try trivial
         rename_i bv
-        have hjif := Runs.of_runsTo (RunsTo.of_exec1 (fun k =>
-          reach_jumpIfFalse G.code G.lim (baseOf G.s A.fn A.rest A.mp st1.world) _ k stk mem1 ⟨A.fn, 0⟩ A.rest A.c rfl
+        have hjif := Runs.of_runsTo (fr := G.fr) (fun it_ => RunsTo.of_exec1 (fun k =>
+          reach_jumpIfFalse G.code G.lim (baseOf (withIt G.s it_) A.fn A.rest A.mp st1.world) _ k stk mem1 ⟨A.fn, 0⟩ A.rest A.c rfl
             hA.code (A.lab aft.1) isp bv none ijif))
         cases bv with
         | true =>
           simp only []
-          have hpre : Runs G.code G.lim G.s A.fn A.rest A.mp ip stk mem spec.world (ip + (nI C.1 + 1)) stk mem1 st1.world :=
+          have hpre : Runs G.fr G.code G.lim G.s A.fn A.rest A.mp ip stk mem spec.world (ip + (nI C.1 + 1)) stk mem1 st1.world :=
             (hrun.trans hjif).cast (by simp only [if_true]; omega)
           have hb := hPB A hA loops lscopes d t { env with lm := els.2 } st1 (ip + (nI C.1 + 1)) stk mem1 ht
             (fun x hx => hT x (Or.inr hx)) hwt
@@ -611,8 +627,8 @@ theorem pgs_step (G : GCtx) (hG : G.OK) (n : Nat) (hPE : ∀ m, m ≤ n → PE G
           | error ce' => exact SimGS.error_after _ hfr' hpre (hml.mono (by omega)) hb
           | ok u =>
             obtain ⟨hfr2, mem2, hrunB, hml2, hrelB⟩ := hb
-            exact ⟨by rw [hfr2, hfr], mem2, ((hpre.trans hrunB).trans (Runs.of_runsTo (RunsTo.of_exec1 (fun k =>
-              reach_jump G.code G.lim (baseOf G.s A.fn A.rest A.mp st2.world) _ k _ mem2 ⟨A.fn, 0⟩ A.rest A.c rfl
+            exact ⟨by rw [hfr2, hfr], mem2, ((hpre.trans hrunB).trans (Runs.of_runsTo (fr := G.fr) (fun it_ => RunsTo.of_exec1 (fun k =>
+              reach_jump G.code G.lim (baseOf (withIt G.s it_) A.fn A.rest A.mp st2.world) _ k _ mem2 ⟨A.fn, 0⟩ A.rest A.c rfl
                 hA.code (A.lab aft.1) isp (by rw [← Nat.add_assoc] at ijmp ⊢; exact ijmp))))).cast (by omega),
               (hml.mono (by omega)).trans hml2, hrelB⟩
         | false =>
@@ -680,13 +696,13 @@ theorem pgs_step (G : GCtx) (hG : G.OK) (n : Nat) (hPE : ∀ m, m ≤ n → PE G
             | some t =>
               simp only []
               have hrelm : GRel G A env.scopes env.vm spec.scopes mem1 := hrel.memLe hml
-              have hg := Runs.of_exec1 (fun k => mkS_getGlob_builtin G.code G.lim G.s A.fn (ip + nI CA.1) A.rest A.mp
+              have hg := Runs.of_exec1 (fr := G.fr) (fun it_ k => mkS_getGlob_builtin G.code G.lim (withIt G.s it_) A.fn (ip + nI CA.1) A.rest A.mp
                 k (vals.map (⟨·, none⟩) ++ stk) mem1 st1.world A.c hA.code "println" csp iglob hG.println (by decide))
-              have hp := Runs.of_runsTo (RunsTo.of_exec1 (fun k =>
-                reach_push G.code G.lim (baseOf G.s A.fn A.rest A.mp st1.world) (ip + nI CA.1 + 1) k
+              have hp := Runs.of_runsTo (fr := G.fr) (fun it_ => RunsTo.of_exec1 (fun k =>
+                reach_push G.code G.lim (baseOf (withIt G.s it_) A.fn A.rest A.mp st1.world) (ip + nI CA.1 + 1) k
                   (⟨.builtin "println", none⟩ :: (vals.map (⟨·, none⟩) ++ stk)) mem1 ⟨A.fn, 0⟩ A.rest A.c rfl hA.code
                   (.int args.length) csp (.int (I64.ofInt args.length)) ipush (fun _ => rfl)))
-              have hc := Runs.of_exec1 (fun k => mkS_callVal_println G.code G.lim G.s A.fn (ip + nI CA.1 + 1 + 1)
+              have hc := Runs.of_exec1 (fr := G.fr) (fun it_ k => mkS_callVal_println G.code G.lim (withIt G.s it_) A.fn (ip + nI CA.1 + 1 + 1)
                 A.rest A.mp k stk mem1 st1.world A.c hA.code csp (vals.map (⟨·, none⟩)) none none t icall
                 (by simpa [hvl] using hlen)
                 (by simpa [List.map_map, Function.comp_def, St.world] using hpt))
@@ -725,8 +741,8 @@ theorem pgs_step (G : GCtx) (hG : G.OK) (n : Nat) (hPE : ∀ m, m ≤ n → PE G
         | error ce' => exact SimGS.of_exprError _ hrel hls h1
         | ok v =>
           obtain ⟨hfr, mem1, hrun, hml⟩ := h1
-          refine ⟨by rw [hfr], mem1, (hrun.trans (Runs.of_runsTo (RunsTo.of_exec1 (fun k =>
-            reach_drop G.code G.lim (baseOf G.s A.fn A.rest A.mp st1.world) _ k stk mem1 ⟨A.fn, 0⟩ A.rest A.c rfl
+          refine ⟨by rw [hfr], mem1, (hrun.trans (Runs.of_runsTo (fr := G.fr) (fun it_ => RunsTo.of_exec1 (fun k =>
+            reach_drop G.code G.lim (baseOf (withIt G.s it_) A.fn A.rest A.mp st1.world) _ k stk mem1 ⟨A.fn, 0⟩ A.rest A.c rfl
               hA.code sp ⟨v, none⟩ idrop)))).cast ?_, hml.mono (by omega), ?_⟩
           · rw [nI_append, nI_instr _ _ _ rfl]; simp only [nI_nil]; omega
           · rw [hfr]; exact hrel.memLe hml
@@ -782,19 +798,19 @@ theorem pgs_step (G : GCtx) (hG : G.OK) (n : Nat) (hPE : ∀ m, m ≤ n → PE G
                 | none => trivial
                 | some dmsg =>
                   simp only []
-                  refine ⟨by cases spec; rfl, mem, ?_, MemLe.refl _ _, ?_⟩
+                  refine ⟨by cases spec; rfl, mem, ?_, MemLe.refl _ _ _, ?_⟩
                   · intro k
                     obtain ⟨k', e⟩ := hvals2 spec.world k
                     refine ⟨k', _, [], ip + nI CA.1 + 1, A.mp, [], e, ?_⟩
-                    exact mkS_throw G.code G.lim G.s A.fn (ip + nI CA.1) A.rest A.mp (k + k') stk mem spec.world A.c
+                    exact mkSI_throw G.code G.lim G.s A.fn (ip + nI CA.1) A.rest A.mp (k + k') stk mem spec.world A.c
                       hA.code csp v none dmsg ithrow hd
-                  · rw [hls]; exact hrel.rel.scopes.drop d
+                  · rw [hls]; exact ⟨hrel.rel.scopes.drop d, hrel.ghost⟩
     · -- `try { … } catch e { … }`
       obtain ⟨cbsp, cbty, cstmts, coe⟩ := cb
       cases coe with
-      | some _ => simp [Frag.okGBS] at hcb
+      | some _ => simp [Frag.okFBS] at hcb
       | none =>
-      simp only [Frag.okGBS] at hcb
+      simp only [Frag.okFBS] at hcb
       simp only [Frag.wsGS, Bool.and_eq_true, beq_iff_eq] at hws
       obtain ⟨⟨⟨hmain, hself⟩, hwt⟩, hwc⟩ := hws
       simp only [Frag.identsGS, Frag.identsGBS, List.mem_append, List.mem_cons] at hT
@@ -850,7 +866,7 @@ theorem pgs_step (G : GCtx) (hG : G.OK) (n : Nat) (hPE : ∀ m, m ≤ n → PE G
       have hB := hTry m rfl (tryHandler G A (A.lab exc.1) stk :: G.s.handlers) _ hA' [] env.scopes 0 tb
         { env with lm := aft.2 } spec (ip + 1) stk mem htb (fun x hx => hT x (Or.inl hx)) hwt
         (fun mm hm => hN mm (Or.inl (Or.inl (Or.inl (Or.inr (hCt ▸ hm)))))) (hCt ▸ hplB) rfl
-        ⟨hrel.rel, hrel.key⟩ ⟨trivial, hsp.module, hsp.globals, hsp.depth⟩
+        ⟨hrel.rel, hrel.key, hrel.ghost, hrel.ghostC⟩ ⟨trivial, hsp.module, hsp.globals, hsp.depth⟩
       have hB' : SimGS (G.inTry A (A.lab exc.1) stk) { A with rt := false } [] env.scopes 0 (ip + 1)
           (nI (cgBS G.mod A.src A.φ [] tb { env with lm := aft.2 }).1) stk mem
           (GRel (G.inTry A (A.lab exc.1) stk) { A with rt := false }
@@ -866,7 +882,7 @@ theorem pgs_step (G : GCtx) (hG : G.OK) (n : Nat) (hPE : ∀ m, m ≤ n → PE G
         obtain ⟨hfr, mem1, hrunB, hmlB, hrelB⟩ := hB'
         refine ⟨hfr, mem1, (Runs.tryOk hA iset0 hrunB ipop1 ijmp).cast (by rw [eaft]; omega), hmlB, ?_⟩
         rw [hccT, ← hscT]
-        exact GRel.vm_mono ⟨hrelB.rel, hrelB.key⟩ hvmC
+        exact GRel.vm_mono ⟨hrelB.rel, hrelB.key, hrelB.ghost, hrelB.ghostC⟩ hvmC
       | error ce' =>
         cases ce'
         case brk => exact hB'.elim
@@ -900,10 +916,11 @@ theorem pgs_step (G : GCtx) (hG : G.OK) (n : Nat) (hPE : ∀ m, m ≤ n → PE G
             rw [hst2, hmod1, errCellOf_main]; rfl
           rw [← hw2] at hrunC
           have hsr' : ScopesRel A.T A.σ G.lim A.mp mem1 env.scopes st1.scopes := by
-            have h0 : ScopesRel A.T A.σ G.lim A.mp mem1 env.scopes (st1.scopes.drop 0) := hsr
+            have h0 : ScopesRel A.T A.σ G.lim A.mp mem1 env.scopes (st1.scopes.drop 0) := hsr.1
             simpa using h0
+          have hgh1 : GhostOK A mem1 := hsr.2
           have hrelE : GRel G A env.scopes env.vm st1.scopes mem1 :=
-            ⟨⟨hsr', hrel.rel.nodup, hrel.rel.inN, hrel.rel.named⟩, hrel.key⟩
+            ⟨⟨hsr', hrel.rel.nodup, hrel.rel.inN, hrel.rel.named⟩, hrel.key, hgh1, hrel.ghostC⟩
           have hrelT : GRel G A ct.2.scopes ct.2.vm st1.scopes mem1 := by
             rw [hscT]; exact hrelE.vm_mono hvmT
           have hdecl := GRel.declare (env := { ct.2 with scopes := [] :: ct.2.scopes }) hA hrelT.push ci
@@ -913,17 +930,17 @@ theorem pgs_step (G : GCtx) (hG : G.OK) (n : Nat) (hPE : ∀ m, m ≤ n → PE G
           have hfr02 : st2 = { spec with scopes := st2.scopes, out := st2.out, heap := st2.heap } := by
             rw [hst2, hfr]
           have hsp2 : SpecOK G A.mp st2 := hsp.scopes_out st2 hfr02
-          have hml02 : MemLe (A.mp - (A.nv : Int)) mem
-              (memSetL mem1 (A.mp - (A.σ fv.1 : Int)) (.ref st1.world.heap.size)) :=
-            hmlB.trans (MemLe.set _ _ _ _ hcell.2.2)
+          have hml02 : MemLe G.fr (A.mp - (A.nv : Int)) mem
+              (mem1.set (A.mp - (A.σ fv.1 : Int)) (.ref st1.world.heap.size)) :=
+            hmlB.trans (MemLe.set _ _ _ _ _ hcell.2.2)
           have hC := hPSs A hA loops lscopes (d + 1) cstmts fv.2 st2 (ip + 1 + nI ct.1 + 4) stk
-            (memSetL mem1 (A.mp - (A.σ fv.1 : Int)) (.ref st1.world.heap.size)) hcb
+            (mem1.set (A.mp - (A.σ fv.1 : Int)) (.ref st1.world.heap.size)) hcb
             (fun x hx => hT x (Or.inr (Or.inr hx))) hwc
             (fun mm hm => hN mm (Or.inl (Or.inr (hCc ▸ hm)))) (hCc ▸ hplC) (by omega)
             (by rw [← List.drop_tail, hfvsc, hscT]; exact hls) (by rw [hsc2]; exact hdecl) hsp2
           rw [hCc] at hC
           have hCp := SimGS.popLevel (Q' := GRel G A cc.2.scopes.tail cc.2.vm)
-            (fun ss mm hq => ⟨hq.rel.tail, by rw [hccT]; exact hrel.key⟩) hC
+            (fun ss mm hq => ⟨hq.rel.tail, by rw [hccT]; exact hrel.key, hq.ghost, hq.ghostC⟩) hC
           rcases hes : evalStmts G.cfg m' cstmts st2 with ⟨r2, st3⟩
           rw [hes] at hCp
           have hipC : A.lab exc.1 + 2 = ip + 1 + nI ct.1 + 4 := by rw [eexc]
@@ -970,7 +987,7 @@ theorem pgs_step (G : GCtx) (hG : G.OK) (n : Nat) (hPE : ∀ m, m ≤ n → PE G
       have hnE : nI [((Instr.jump aft.1 : SInstr), msp), (.label aft.1, msp)] = 1 := rfl
       simp only [nI_append, hnJ, hnL, hnE] at hplT ijd hplB edfl idrop hplD ija eaft ⊢
       simp only [← Nat.add_assoc] at hplT ijd hplB edfl idrop hplD ija eaft ⊢
-      have hlit := okGArmsS_lits _ _ arms hmarms
+      have hlit := okGArmsS_lits _ _ _ arms hmarms
       have hscB : bs.2.scopes = env.scopes := by rw [← hBs, cgArmsS_scopes]
       have hscD : CD.2.scopes = env.scopes := by rw [← hCD, cgBS_scopes, hscB]
       have hvmB : ∀ k, cnt env.vm k ≤ cnt bs.2.vm k := fun k => by
@@ -1009,10 +1026,10 @@ theorem pgs_step (G : GCtx) (hG : G.OK) (n : Nat) (hPE : ∀ m, m ≤ n → PE G
             cgArmsS_at A G.mod A.src A.φ loops msp aft.1 (!loops.isEmpty) A.rt arms ts.2.1 { env with lm := dfl.2 } _ hlen
               hmarms hwa (hBs ▸ hplB) i a nm hi hnm
           rw [hBs] at hvmi2 hcv
-          have hdrop := Runs.of_runsTo (RunsTo.of_exec1 (fun k => reach_drop G.code G.lim
-            (baseOf G.s A.fn A.rest A.mp st1.world) (A.lab nm) k stk mem1 ⟨A.fn, 0⟩ A.rest A.c rfl hA.code msp ⟨cv, none⟩
+          have hdrop := Runs.of_runsTo (fr := G.fr) (fun it_ => RunsTo.of_exec1 (fun k => reach_drop G.code G.lim
+            (baseOf (withIt G.s it_) A.fn A.rest A.mp st1.world) (A.lab nm) k stk mem1 ⟨A.fn, 0⟩ A.rest A.c rfl hA.code msp ⟨cv, none⟩
             idr))
-          have hpre : Runs G.code G.lim G.s A.fn A.rest A.mp ip stk mem spec.world (A.lab nm + 1) stk mem1 st1.world :=
+          have hpre : Runs G.fr G.code G.lim G.s A.fn A.rest A.mp ip stk mem spec.world (A.lab nm + 1) stk mem1 st1.world :=
             (hrun1.trans hrunT).trans hdrop
           rw [hab]
           cases f' with
@@ -1031,8 +1048,8 @@ theorem pgs_step (G : GCtx) (hG : G.OK) (n : Nat) (hPE : ∀ m, m ≤ n → PE G
           | error ce' => exact SimGS.error_after _ hfr' hpre (hml.mono (by omega)) hb
           | ok u =>
             obtain ⟨hfr2, mem2, hrunB, hml2, hrelB⟩ := hb
-            have hj := Runs.of_runsTo (RunsTo.of_exec1 (fun k => reach_jump G.code G.lim
-              (baseOf G.s A.fn A.rest A.mp st2.world) _ k stk mem2 ⟨A.fn, 0⟩ A.rest A.c rfl hA.code
+            have hj := Runs.of_runsTo (fr := G.fr) (fun it_ => RunsTo.of_exec1 (fun k => reach_jump G.code G.lim
+              (baseOf (withIt G.s it_) A.fn A.rest A.mp st2.world) _ k stk mem2 ⟨A.fn, 0⟩ A.rest A.c rfl hA.code
               (A.lab aft.1) msp ijmp))
             refine ⟨by rw [hfr2, hfr], mem2, ((hpre.trans hrunB).trans hj).cast (by rw [eaft]; omega),
               (hml.mono (by omega)).trans hml2, ?_⟩
@@ -1044,13 +1061,13 @@ theorem pgs_step (G : GCtx) (hG : G.OK) (n : Nat) (hPE : ∀ m, m ≤ n → PE G
           rw [h]
           have hh' : armsHit st1.world.heap cv arms = some none := hh
           rw [hh'] at htest
-          have hjd := Runs.of_runsTo (RunsTo.of_exec1 (fun k => reach_jump G.code G.lim
-            (baseOf G.s A.fn A.rest A.mp st1.world) _ k (⟨cv, none⟩ :: stk) mem1 ⟨A.fn, 0⟩ A.rest A.c rfl hA.code
+          have hjd := Runs.of_runsTo (fr := G.fr) (fun it_ => RunsTo.of_exec1 (fun k => reach_jump G.code G.lim
+            (baseOf (withIt G.s it_) A.fn A.rest A.mp st1.world) _ k (⟨cv, none⟩ :: stk) mem1 ⟨A.fn, 0⟩ A.rest A.c rfl hA.code
             (A.lab dfl.1) msp ijd))
-          have hdrop := Runs.of_runsTo (RunsTo.of_exec1 (fun k => reach_drop G.code G.lim
-            (baseOf G.s A.fn A.rest A.mp st1.world) (A.lab dfl.1) k stk mem1 ⟨A.fn, 0⟩ A.rest A.c rfl hA.code msp
+          have hdrop := Runs.of_runsTo (fr := G.fr) (fun it_ => RunsTo.of_exec1 (fun k => reach_drop G.code G.lim
+            (baseOf (withIt G.s it_) A.fn A.rest A.mp st1.world) (A.lab dfl.1) k stk mem1 ⟨A.fn, 0⟩ A.rest A.c rfl hA.code msp
             ⟨cv, none⟩ (by rw [edfl]; exact idrop)))
-          have hpre : Runs G.code G.lim G.s A.fn A.rest A.mp ip stk mem spec.world
+          have hpre : Runs G.fr G.code G.lim G.s A.fn A.rest A.mp ip stk mem spec.world
               (ip + nI CC.1 + nI ts.1 + 1 + nI bs.1 + 1) stk mem1 st1.world :=
             (((hrun1.trans htest).trans hjd).trans hdrop).cast (by rw [edfl])
           cases f' with
@@ -1069,8 +1086,8 @@ theorem pgs_step (G : GCtx) (hG : G.OK) (n : Nat) (hPE : ∀ m, m ≤ n → PE G
           | error ce' => exact SimGS.error_after _ hfr' hpre (hml.mono (by omega)) hb
           | ok u =>
             obtain ⟨hfr2, mem2, hrunB, hml2, hrelB⟩ := hb
-            have hj := Runs.of_runsTo (RunsTo.of_exec1 (fun k => reach_jump G.code G.lim
-              (baseOf G.s A.fn A.rest A.mp st2.world) _ k stk mem2 ⟨A.fn, 0⟩ A.rest A.c rfl hA.code
+            have hj := Runs.of_runsTo (fr := G.fr) (fun it_ => RunsTo.of_exec1 (fun k => reach_jump G.code G.lim
+              (baseOf (withIt G.s it_) A.fn A.rest A.mp st2.world) _ k stk mem2 ⟨A.fn, 0⟩ A.rest A.c rfl hA.code
               (A.lab aft.1) msp ija))
             exact ⟨by rw [hfr2, hfr], mem2, ((hpre.trans hrunB).trans hj).cast (by rw [eaft]; omega),
               (hml.mono (by omega)).trans hml2, hrelB⟩
